@@ -829,7 +829,7 @@ def _tmpl_sets(level):
     return cat, dom
 
 
-def steps_for(ds, kind, level, fresh=None):
+def steps_for(ds, kind, level, fresh=None, depth=1):
     """the applicable steps of a dataset, as descriptors (JSON-able tuples), in a fixed order.
     fresh: None = templates range over every field; else only over the fields named in `fresh` (those that earlier
     steps of the program created)."""
@@ -862,12 +862,12 @@ def steps_for(ds, kind, level, fresh=None):
                 out.append((op, name, f))
         for name, f in applicable(cat, row_fields, ('b',)):
             out.append(('filter', name, f))
-        if level == 'full' and fresh is not None:
+        if level == 'full' and depth > 1:
             # deeper steps: the lookups keyed by a field an earlier step created, consumed by annotate only
             for name, f in applicable(cat, row_fields, ('j',)):
                 if not name.endswith('_fk'):
                     out.append(('annotate', name, f))
-        if level == 'full' and fresh is None:
+        if level == 'full' and depth == 1:
             for name, f in applicable(cat, row_fields, ('j',)):
                 out.append(('annotate', name, f))
                 out.append(('select', name, f))
@@ -925,7 +925,7 @@ def steps_for(ds, kind, level, fresh=None):
             out.append(('filter_cols', name, f))
         for name, f in applicable(core_cat, row_fields + col_fields + entry_fields, ('b',)):
             out.append(('filter_entries', name, f))
-        if level == 'full' and fresh is not None:
+        if level == 'full' and depth > 1:
             for name, f in applicable(cat, row_fields, ('j',)):
                 if not name.endswith('_fk'):
                     out.append(('annotate_rows', name, f))
@@ -935,7 +935,7 @@ def steps_for(ds, kind, level, fresh=None):
             for name, f in applicable(cat, entry_fields, ('j',)):
                 if not name.endswith('_fk'):
                     out.append(('annotate_entries', name, f))
-        if level == 'full' and fresh is None:
+        if level == 'full' and depth == 1:
             for name, f in applicable(cat, row_fields, ('j',)):
                 out.append(('annotate_rows', name, f))
                 out.append(('select_rows', name, f))
@@ -1186,7 +1186,7 @@ def explore(acc, ds, kind, depth, plan, prog, seed_fields):
     if depth > plan.max_depth:
         return
     fresh = None if depth < plan.fresh_from else field_names(ds, kind) - seed_fields
-    for step in steps_for(ds, kind, plan.levels[depth - 1], fresh):
+    for step in steps_for(ds, kind, plan.levels[depth - 1], fresh, depth):
         run_step(acc, ds, kind, step, depth, plan, prog, seed_fields)
 
 
